@@ -11,7 +11,7 @@ world, all from one thread. It is executed
     with another id), `ORACLE own-handle-invalid` (a fresh handle rejected by its own world / not carrying its id),
     `ORACLE duplicate-id` (an automatically numbered world got the id of a live world), `ORACLE alien-handle` (a world keeps /
     hands out a handle that is not its own), `ORACLE buffers` (a locked world has fewer command buffers than its own
-    dispatcher has threads) = the property fails on the implementation;
+    dispatcher has threads), `ORACLE deferred-lost` (a creation recorded in a world's locked section was not applied to it) = the property fails on the implementation;
   * on the Lean process model (`driver worlds`, Model/Worlds.lean: the allocator of the fixed code + one WM per world):
     the tie, line by line (ids handed out, handles, per-world dumps, cross-world queries).
 
@@ -103,6 +103,8 @@ class ProcGen:
         self.explicit = explicit
         self.scripted = scripted
         self.created = 0
+        self.dead = []            # recently destroyed ordinals whose storage block can be reused (harness keeps 32)
+        self.p_reuse = 0.5
 
     def emit(self, s):
         self.lines.append(s)
@@ -126,6 +128,9 @@ class ProcGen:
         # private dispatchers of different sizes; small ones first as often as big ones first
         threads = 0 if shared else (self.r.choice([1, 1, 2, 3, 4]) if threads is None else threads)
         ctx = "ctx=shared" if shared else "ctx=own threads=%d" % threads
+        if self.dead and self.r.random() < self.p_reuse:
+            # the new World object is built at the address of a destroyed one
+            ctx += " reuse=%d" % self.dead.pop(self.r.randrange(len(self.dead)))
         if explicit_id is None:
             wid = self.next_id()
             self.emit("world new auto %s" % ctx)
@@ -148,6 +153,7 @@ class ProcGen:
         w["gen"].lines = []
         self.emit("world drop %d" % k)
         del self.live[k]
+        self.dead = (self.dead + [k])[-8:]
         if w["id"] not in self.live_ids():
             self.reserved.discard(w["id"])
         if self.cur == k:
@@ -252,6 +258,7 @@ def gen_sequential(rng, total, keep, with_churn):
     """`total` worlds built one after the other, at most `keep` alive at once, every one used (an entity created, written,
     queried in its own and in a neighbour world) - crosses 1024 / 2048 when total does"""
     g = ProcGen(rng, malformed=0.0, explicit=False, scripted=False)
+    g.p_reuse = 0.9
     while g.created < total:
         if with_churn and rng.random() < 0.05:
             g.churn(rng.randint(50, 300), shared=rng.random() < 0.8)
@@ -263,6 +270,15 @@ def gen_sequential(rng, total, keep, with_churn):
         g.emit("assign 0 C %d" % (100000 + k))
         g.emit("valid 0")
         g.live[k]["gen"].ref.n = 1
+        if rng.random() < 0.3:
+            # a locked section in this incarnation: its deferred commands are applied to THIS world
+            g.emit("lock")
+            g.emit("create F")
+            g.emit("assign 0 H %d" % (200000 + k))
+            g.emit("unlock")
+            g.emit("valid 1")
+            g.emit("get 0 H")
+            g.live[k]["gen"].ref.n = 2
         if len(g.live) > 1:
             other = rng.choice([x for x in g.live if x != k])
             g.emit("validin %d 0" % other)
@@ -343,6 +359,10 @@ def boundary_cases():
                 "world new auto ctx=own threads=2\ncreate A\nlock\nt2 create B\nunlock\ndumpall\n"))
     out.append(("boundary:big-dispatcher-locks-first", "world new auto ctx=own threads=4\ncreate A\nlock\nt4 create A\nunlock\n"
                 "world new auto ctx=own threads=1\ncreate A\nlock\nt1 create B\nunlock\nuse 0\nlock\nt3 create B\nunlock\ndumpall\n"))
+    out.append(("boundary:churn-3-one-address", "world churn 3 ctx=own\n"))
+    out.append(("boundary:same-address-incarnations", "world new auto ctx=own threads=1\nlock\ncreate A\nunlock\nworld drop 0\n"
+                "world new auto ctx=own threads=3 reuse=0\ncreate B\nlock\ncreate A\nassign 0 C 9\nt2 create F\nunlock\ndump\nworld drop 1\n"
+                "world new auto ctx=shared reuse=1\nlock\ncreate G\nunlock\ndump\nworld churn 7 ctx=own\nworld churn 5 ctx=shared\ndumpall\n"))
     out.append(("boundary:deferred-through-foreign-handle", "world new auto ctx=shared\ncreate A\ncreate A,B\nworld new auto ctx=shared\n"
                 "create A\ncreate A,B\nlock\nuse 0\nin 1 assign 0 C 7\nin 1 remove 1 B\nin 1 destroynow 0\nin 1 destroy 1\nuse 1\nunlock\n"
                 "update\ndumpall\nuse 0\nin 1 remove 1 B\nin 1 destroynow 0\ndumpall\n"))
